@@ -21,13 +21,15 @@ import (
 
 // TNode is an abstract file-system node (JSON-able, mirrors FS/FS.v).
 type TNode struct {
-	Kind   string            `json:"k"` // file | dir | link | fifo
-	Data   string            `json:"d,omitempty"`
-	Perm   uint32            `json:"p,omitempty"`
-	Mtime  int64             `json:"m,omitempty"` // seconds; 0 = not set
-	MtimeN int64             `json:"mn,omitempty"`
-	Target string            `json:"t,omitempty"`
-	Kids   map[string]*TNode `json:"c,omitempty"`
+	Kind   string `json:"k"` // file | dir | link | fifo
+	Data   string `json:"d,omitempty"`
+	Perm   uint32 `json:"p,omitempty"`
+	Mtime  int64  `json:"m,omitempty"` // seconds; (0, 0) = not set unless MtimeSet
+	MtimeN int64  `json:"mn,omitempty"`
+	// MtimeSet: the time is an observed one (a snapshot), also when it is the epoch itself
+	MtimeSet bool              `json:"ms,omitempty"`
+	Target   string            `json:"t,omitempty"`
+	Kids     map[string]*TNode `json:"c,omitempty"`
 }
 
 func tdir(perm uint32, kids map[string]*TNode) *TNode {
@@ -82,7 +84,7 @@ func materialize(n *TNode, path string, uid int) error {
 	if uid != 0 {
 		os.Lchown(path, uid, uid)
 	}
-	if n.Mtime != 0 && n.Kind != "link" {
+	if (n.Mtime != 0 || n.MtimeN != 0) && n.Kind != "link" {
 		t := time.Unix(n.Mtime, n.MtimeN)
 		os.Chtimes(path, t, t)
 	}
@@ -97,7 +99,7 @@ func fixDirTimes(n *TNode, path string) {
 	for _, k := range sortedKids(n) {
 		fixDirTimes(n.Kids[k], filepath.Join(path, k))
 	}
-	if n.Mtime != 0 {
+	if n.Mtime != 0 || n.MtimeN != 0 {
 		t := time.Unix(n.Mtime, n.MtimeN)
 		os.Chtimes(path, t, t)
 	}
